@@ -191,7 +191,7 @@ func (vc *VC) emitVariant(o *Obl, dir string, idx int, variant int) (string, int
 	}
 	macroUsed := false
 	for s := range need {
-		if s == "sid16" {
+		if s == "sid16" || s == "sidc16" {
 			macroUsed = true
 		}
 	}
